@@ -654,7 +654,7 @@ func (s String) Count(args Tuple) (Object, error) {
 		pysub Object
 		pybeg Object = None
 		pyend Object = None
-		pyfmt        = "s|ii:count"
+		pyfmt        = "s|OO:count"
 	)
 	err := ParseTuple(args, pyfmt, &pysub, &pybeg, &pyend)
 	if err != nil {
@@ -683,7 +683,7 @@ func (s String) find(args Tuple) (Object, error) {
 		pysub Object
 		pybeg Object = None
 		pyend Object = None
-		pyfmt        = "s|ii:find"
+		pyfmt        = "s|OO:find"
 	)
 	err := ParseTuple(args, pyfmt, &pysub, &pybeg, &pyend)
 	if err != nil {
@@ -766,7 +766,7 @@ func stripFunc(args Tuple) (func(rune) bool, error) {
 	var (
 		pyval Object = None
 	)
-	err := ParseTuple(args, "|s", &pyval)
+	err := ParseTuple(args, "|z", &pyval) // None means strip whitespace
 	if err != nil {
 		return nil, err
 	}
